@@ -117,25 +117,13 @@ prop("C09", level="exploration",
      level_text="Bounded exploration: for random trees, every module_path depth and every k, the level-limited architecture is compared with the truncation quotient of the full one, and rule "
                 "verdicts on names at or above the limit are compared between the two.",
      level_note=_BND_NOTE, technique=_BND_TECH, explanation="quotient graph", roots=[], bounded=[_b("projects", "bounded_level_limit")], trusted_base=_TB)
-prop("C10", level="exploration",
-     level_text="Bounded exploration: random trees with internal and external imports scanned under every external option set; internal modules/imports must be identical in all, externals "
-                "appear/disappear exactly as the property states.",
-     level_note=_BND_NOTE, technique=_BND_TECH, explanation="external options frame", roots=[], bounded=[_b("projects", "bounded_externals")], trusted_base=_TB)
-
-prop("C05", level="exploration",
-     level_text="Bounded exploration: random layer partitions (name lists, regex, mixed, unmentioned layers, modules in no layer) on graphs with prefix-named siblings; the real LayerRule "
-                "outcome is compared with the documented layer semantics for all 12 shapes and the two 'any layer' aliases.",
-     level_note=_BND_NOTE, technique=_BND_TECH, explanation="layer rule verdicts", roots=[], bounded=[_b("layers", "bounded_layer_verdicts")], trusted_base=_TB)
-prop("C06", level="exploration",
-     level_text="Bounded exploration: diagrams generated from a random component relation by choosing declaration, reference and arrow forms and line order; the real parser's components and "
-                "dependencies are compared with the relation; files without tags must be rejected.",
-     level_note=_BND_NOTE + "Whole-file re.finditer tokenisation is outside SMT regex theories (DESIGN section 7).", technique=_BND_TECH, explanation="puml parsing", roots=[],
-     bounded=[_b("diagrams", "bounded_puml")], trusted_base=_TB)
-prop("C07", level="exploration",
-     level_text="Bounded exploration: the real DiagramRule outcome is compared with the conformance predicate of the property on random component relations and perturbed import graphs, both "
-                "modes; aggregated messages are checked to contain every violated forbidden pair.",
-     level_note=_BND_NOTE, technique=_BND_TECH, explanation="diagram rule conformance", roots=[], bounded=[_b("diagrams", "bounded_diagram_rule")], trusted_base=_TB)
-prop("C17", level="exploration",
-     level_text="Bounded exploration: labels, existence check and keyword pass-through observed at the intercepted drawing call for random trees and alias maps (nested aliases, prefix-named "
-                "siblings, regex metacharacters).",
-     level_note=_BND_NOTE + "draw_networkx / spring_layout intercepted with unittest.mock.", technique=_BND_TECH, explanation="plot labels", roots=[], bounded=[_b("layers", "bounded_labels")], trusted_base=_TB)
+prop("C10", level="proof",
+     level_text="Proved (string view) for every stage that implements the external options: ExternalImportFilter.filter keeps every import whose importee is internal in EVERY "
+                "configuration and drops an external import iff the importee or one of its dotted ancestors matches a pattern; ImporteeModuleCalculator adds exactly the importees and their "
+                "dotted ancestors; _append_external_modules_to_module_list never removes a scanned module and filters only added externals; _remove_excluded_imports / "
+                "_get_all_internal_modules / _get_internal_module_prefix carry the same frame. The composition through generate_graph and the graph constructor is covered by the bounded "
+                "stand-in that scans random projects under every option set.",
+     level_note="Assumed: re.match / re.compile (uninterpreted relation), pathlib.Path.name / str(), get_parent_modules' contract (dotted ancestors; proved separately where claimed), generated "
+                "dataclass __init__. " + _BND_NOTE, technique=_BND_TECH, explanation="external options frame: per-stage contracts + bounded pipeline check",
+     roots=["ExternalImportFilter.filter", "_append_external_modules_to_module_list", "_remove_excluded_imports", "ImporteeModuleCalculator.calculate_importee_modules"],
+     bounded=[_b("projects", "bounded_externals")], trusted_base=_TB)
